@@ -810,6 +810,10 @@ fn run_sampler(s: &SScn) -> Result<Vec<(String, String, String)>, String> {
                 return Ok(bad);
             }
         }
+        if qmax <= 42 && s.sampler == "centered_binomial" {
+            // no modulus can tell +k from -(q-k): only reducedness (checked above) is meaningful
+            continue;
+        }
         let vmax = dest[jmax * s.n + i];
         let f: i64 = if vmax > qmax / 2 { vmax as i64 - qmax as i64 } else { vmax as i64 };
         for (j, &q) in s.moduli.iter().enumerate() {
@@ -1102,8 +1106,7 @@ fn one_run(i: usize, run_seed: u64, tier: Tier) -> RunOut {
         11..=14 => {
             // adversarial stream through the generic Rng seam
             let sampler = *rng.pick(&["ternary", "centered_binomial", "uniform"]);
-            // an error of magnitude up to 21 needs a modulus that can represent it: >= 7 bits there
-            let moduli = gen_moduli(&mut rng, if sampler == "centered_binomial" { 7 } else { 2 });
+            let moduli = gen_moduli(&mut rng, 2);
             let n = *rng.pick(&[8usize, 64, 256]);
             let (pname, _) = PATTERNS[rng.usize_below(PATTERNS.len())];
             let aligned = rng.coin();
